@@ -206,6 +206,7 @@ def cases(seed, tier):
     out.append({'kind': 'sexa_carries', 'which': 'hms'})
     for k in range(reps * 2):
         out.append({'kind': 'sexa_random', 'n': 4000 if tier == 'quick' else 40000, 'seed': [seed, 'sexa', k]})
+    out.append({'kind': 'int_spellings', 'n': 2000 if tier == 'quick' else 20000, 'seed': [seed, 'ints']})
     return out
 
 
@@ -318,6 +319,45 @@ def run(case):
             o.n_eval += n + 200
             o.n_nontrivial += n_distinct_rows(ra, dec, r, t)
             o.sample = {'first': [ra[0], dec[0], r[0], t[0]], 'out': [ro[0], do[0]]}
+        elif kind == 'int_spellings':
+            # whole-degree arguments given as Python ints, numpy integers and integer arrays: same answers as for floats
+            rng = rng_for(*case['seed'])
+            n = case['n']
+            ra1, ra2 = rng.integers(0, 360, n), rng.integers(0, 360, n)
+            d1, d2 = rng.integers(-90, 91, n), rng.integers(-90, 91, n)
+            r, t = rng.integers(0, 180, n), rng.integers(0, 360, n)
+            gf = at.gcd(ra1.astype(float), d1.astype(float), ra2.astype(float), d2.astype(float))
+            bf = at.bear(ra1.astype(float), d1.astype(float), ra2.astype(float), d2.astype(float))
+            tf = at.translate(ra1.astype(float), d1.astype(float), r.astype(float), t.astype(float))
+            for name, conv in (('int64 array', lambda v: v.astype(np.int64)), ('int32 array', lambda v: v.astype(np.int32))):
+                gi = at.gcd(conv(ra1), conv(d1), conv(ra2), conv(d2))
+                bi = at.bear(conv(ra1), conv(d1), conv(ra2), conv(d2))
+                ti = at.translate(conv(ra1), conv(d1), conv(r), conv(t))
+                bad = ~((np.abs(gi - gf) <= 1e-12) & ((np.abs(sphere.angdiff(bi, bf)) <= 1e-9) | ~np.isfinite(bf)) &
+                        (np.abs(sphere.angdiff(ti[0], tf[0])) <= 1e-9) & (np.abs(ti[1] - tf[1]) <= 1e-12))
+                o.count('int_spellings_checked', n)
+                for i in np.flatnonzero(bad)[:3]:
+                    o.violate('int_spelling_differs_from_float', {'spelling': name, 'args': [int(ra1[i]), int(d1[i]), int(ra2[i]), int(d2[i]), int(r[i]), int(t[i])],
+                                                                  'int': [float(gi[i]), float(bi[i]), float(ti[0][i]), float(ti[1][i])],
+                                                                  'float': [float(gf[i]), float(bf[i]), float(tf[0][i]), float(tf[1][i])]})
+            for i in rng.integers(0, n, 300):
+                a = (int(ra1[i]), int(d1[i]), int(ra2[i]), int(d2[i]))
+                gs, bs = at.gcd(*a), at.bear(*a)
+                ts = at.translate(int(ra1[i]), int(d1[i]), int(r[i]), int(t[i]))
+                ns = at.gcd(np.int64(a[0]), np.int32(a[1]), np.int64(a[2]), np.int16(a[3]))
+                o.count('int_spellings_checked', 3)
+                if not (abs(gs - gf[i]) <= 1e-12 and abs(ns - gf[i]) <= 1e-12 and (abs(sphere.angdiff(bs, bf[i])) <= 1e-9 or not np.isfinite(bf[i]))
+                        and abs(sphere.angdiff(ts[0], tf[0][i])) <= 1e-9 and abs(ts[1] - tf[1][i]) <= 1e-12):
+                    o.violate('int_spelling_differs_from_float', {'spelling': 'python/numpy int scalars', 'args': list(a) + [int(r[i]), int(t[i])],
+                                                                  'int': [float(gs), float(bs), float(ts[0]), float(ts[1])],
+                                                                  'float': [float(gf[i]), float(bf[i]), float(tf[0][i]), float(tf[1][i])]})
+                # the formatters with whole degrees given as ints
+                for f, v in ((at.dec2dms, int(d1[i])), (at.dec2hms, int(ra1[i]))):
+                    if f(v) != f(float(v)):
+                        o.violate('int_spelling_differs_from_float', {'function': f.__name__, 'arg': v, 'int': f(v), 'float': f(float(v))})
+            o.n_eval += 3 * n + 900
+            o.n_nontrivial += n_distinct_rows(ra1, d1, ra2, d2)
+            o.sample = {'n': n, 'first': [int(ra1[0]), int(d1[0]), int(ra2[0]), int(d2[0])], 'gcd': float(gf[0])}
         elif kind == 'sexa_carries':
             xs = _carry_values(case['which'])
             _drive_sexa(at, o, xs, case['which'])
